@@ -56,6 +56,9 @@ var txPatterns = []txPattern{
 	{"pair-i0", "--pair", pair.NewSocket, true, "0"},
 	{"surveyor-i0", "--surveyor", respondent.NewSocket, true, "0s"},
 	{"push-i0", "--push", pull.NewSocket, true, "0ms"},
+	// an interval longer than the default survey time (1s): nobody answers, every survey expires
+	// before the next one is due - and the next one is sent all the same
+	{"surveyor-i-expiring", "--surveyor", respondent.NewSocket, true, "1200ms"},
 }
 
 // duplex protocols without --send-interval (see scenario tx-count-duplex-nointerval)
@@ -241,7 +244,7 @@ func runTx(c txCase) (res txResult) {
 				res.got = append(res.got, m)
 				mu.Unlock()
 				armed = false
-				if c.pat.ival != "" && c.pat.name != "push-i0" {
+				if c.pat.ival != "" && c.pat.name != "push-i0" && c.pat.name != "surveyor-i-expiring" {
 					// with an interval of zero macat waits for the answer before it sends again
 					_ = pe.sock.Send([]byte("answer"))
 				}
